@@ -270,7 +270,7 @@ def subst_env(term, env, env2):
 # ------------------------------------------------------------------------------------------- value regimes (concrete)
 
 
-def regime_envs(p, rng, readings_for=None):
+def regime_envs(p, rng, readings_for=None, noise_in_program=False):
     """Valid inputs in value regimes where a hidden absolute tolerance (1e-8, 1e-12, machine epsilon) in the code under
     test would matter although every quantity is perfectly well conditioned *relative to its own scale*:
       tiny-cov    covariance and all noise variances scaled by 1e-14 (sigma ~ 1e-7 in the state's units)
@@ -288,6 +288,8 @@ def regime_envs(p, rng, readings_for=None):
         cs, ns = 1.0, 1.0
         if label == "tiny-cov":
             cs = ns = 2.0 ** -46  # ~1.4e-14
+            if noise_in_program:  # the program's own noise values are already the scaled ones
+                ns = 1.0
         elif label == "tiny-state":
             for nm in list(p.state) + list(p.control):
                 e[nm] = rng.choice([-1, 1]) * rng.randint(3, 16) / 8.0 * 2.0 ** -30  # ~1e-9
